@@ -56,6 +56,7 @@ func TestVerifC19(t *testing.T) {
 		sc.Link.Cipher = cipherNames[q%len(cipherNames)]
 		sc.Link.D, sc.Link.P = pick(rng, []int{1, 2, 3, 10}), pick(rng, []int{1, 2, 3})
 		sc.Link.UDPAddr = rng.chance(0.5)
+		sc.Link.Batch = rng.chance(0.4)
 		sc.Clients = pick(rng, []int{1, 1, 2, 4, 8})
 		sc.Net = randomProfile(rng, rng.between(2000, 8000))
 		if sc.Net.Loss > 0.3 {
